@@ -2,10 +2,10 @@ package main
 
 import (
 	"fmt"
-	"strings"
 	"go/token"
 	"go/types"
 	"sort"
+	"strings"
 
 	"golang.org/x/tools/go/ssa"
 )
@@ -270,7 +270,6 @@ func ruleC07Div(c *Ctx, r *Result) {
 	}
 	r.ApplyBaseline(verifDirGlobal, "C07.5", "division", per)
 }
-
 
 // ---- C07.3 recursion / worklists ----
 
